@@ -111,6 +111,9 @@ Proof.
   - repeat match goal with |- context [match ?x with _ => _ end] => destruct x eqn:? end; simpl; discriminate.
   - repeat match goal with |- context [match ?x with _ => _ end] => destruct x eqn:? end; simpl; discriminate.
   - repeat match goal with |- context [match ?x with _ => _ end] => destruct x eqn:? end; simpl; discriminate.
+  - repeat match goal with |- context [match ?x with _ => _ end] => destruct x eqn:? end; simpl; discriminate.
+  - repeat match goal with |- context [match ?x with _ => _ end] => destruct x eqn:? end; simpl; discriminate.
+  - repeat match goal with |- context [match ?x with _ => _ end] => destruct x eqn:? end; simpl; discriminate.
 Qed.
 
 (* with the wrapping sum the commit step leaves the array: start = 2^64-2, n = 3 *)
